@@ -77,7 +77,28 @@ def showArch (a : Arch) : String :=
 def showDump (s : State) : String :=
   " | ".intercalate ([s!"dump w={s.w}"] ++ s.archs.map showArch)
 
-def stepLine (st : State × Nat) (l : String) : IO (State × Nat) := do
+/-- Driver-only re-tabulation. The model keeps stamps as functions, so a long history builds a tower of
+closures (each `runJob` wraps the previous stamps, and evaluating one stamp re-evaluates the filter below
+it). After every op the stamps are re-read on the only domain any operation or observation ever reads
+(chunks in range × components of the archetype) and stored as tables; the ghost fields are never read by
+the driver and are dropped. Printed observations are unchanged (and compared with the implementation). -/
+def tabulate (a : Arch) : Arch :=
+  let nChunks := if a.ents.isEmpty then 0 else (a.ents.length - 1) / a.cs + 1
+  let g : List (Nat × Nat) := a.mask.map (fun c => (c, a.gst c))
+  let t : Array (List (Nat × Nat)) :=
+    (Array.range nChunks).map (fun k => a.mask.map (fun c => (c, a.cst k c)))
+  { a with
+      gst := fun c => (g.lookup c).getD nullVer
+      cst := fun k c =>
+        match t[k]? with
+        | some row => (row.lookup c).getD nullVer
+        | none => nullVer }
+
+def normalize (s : State) : State :=
+  { s with archs := s.archs.map tabulate, pending := fun _ _ _ => false, touched := fun _ _ _ => false }
+
+def stepLine (st0 : State × Nat) (l : String) : IO (State × Nat) := do
+  let st := (normalize st0.1, st0.2)
   let (s, nj) := st
   let ws := words l
   let bad : IO (State × Nat) := do IO.println s!"bad-op {l}"; return st
